@@ -6,6 +6,7 @@ import (
 	"encoding/json"
 	"fmt"
 	"github.com/LiskHQ/lisk-engine/pkg/consensus/certificate"
+	"github.com/LiskHQ/lisk-engine/pkg/labi"
 	"os"
 	"sort"
 	"strings"
@@ -72,8 +73,9 @@ type world struct {
 	aggAcross      int               // forged blocks with a non-empty aggregate commit while a parameter change was finalized but uncertified
 	lastAccepted   *blockchain.Block // latest forged block that reached consensus (was published)
 	accepted       []*blockchain.Block
-	keysFile       string // path of the generator keys file when the world uses generator.keys.fromFile
-	gStar          []byte // the validator owning the current wall-clock slot: the only one the real generator forges for
+	consensusLog   []string // consensus information the application was given since the log was last cleared
+	keysFile       string   // path of the generator keys file when the world uses generator.keys.fromFile
+	gStar          []byte   // the validator owning the current wall-clock slot: the only one the real generator forges for
 }
 
 func (w *world) fail(format string, a ...any) {
@@ -140,6 +142,17 @@ func newWorld(t *rapid.T) *world {
 		t.Fatalf("slot owner: %v", err)
 	}
 	w.gStar = g.Addr
+	n.ABI.OnConsensus = func(call string, c *labi.Consensus) {
+		if c == nil {
+			w.consensusLog = append(w.consensusLog, call+":nil")
+			return
+		}
+		var vs []string
+		for _, v := range c.CurrentValidators {
+			vs = append(vs, fmt.Sprintf("%x/%d", v.Address[:3], v.BFTWeight))
+		}
+		w.consensusLog = append(w.consensusLog, fmt.Sprintf("%s:certified=%d:threshold=%d:implyMaxPrevote=%v:validators=%v", call, c.MaxHeightCertified, c.CertificateThreshold, c.ImplyMaxPrevote, vs))
+	}
 	// Half of the worlds configure the forging validator's keys through `generator.keys.fromFile`, as an operator does: Init imports the
 	// file on EVERY start of the node, also over a generator database that already holds the validator's generated heights (added after
 	// seeded change C15-r: the import reset the persisted record, so the first header after a restart contradicted the earlier ones).
@@ -453,6 +466,7 @@ func (w *world) forge(t *rapid.T) bool {
 	}
 	nowSlot := w.n.SlotOf(uint32(time.Now().Unix()))
 	w.last, w.orderViolation = nil, ""
+	w.consensusLog = nil
 	w.gen.VerifForge()
 	if w.n.SlotOf(uint32(time.Now().Unix())) != nowSlot {
 		t.Skip("wall clock crossed a slot boundary")
@@ -510,7 +524,34 @@ func (w *world) forge(t *rapid.T) bool {
 	if drop {
 		w.hist = append(w.hist, "forged block dropped (never reaches consensus)")
 	} else {
+		// the application is told the same consensus information (validators, maxHeightCertified, certificate threshold, implied
+		// prevotes) when the block is VALIDATED as it was told when the block was GENERATED: a real application's state may depend on
+		// it, and then a difference makes the node refuse its own block (added after seeded change C15-u: the generator passed the
+		// precommitted height as maxHeightCertified; the fake application ignores the field, so acceptance alone could not show it)
+		genSeen := w.consensusLog
+		w.consensusLog = nil
 		err := w.n.Exec.VerifProcess(node.CloneBlock(b), "peer")
+		valSeen := w.consensusLog
+		w.consensusLog = nil
+		// (the generator may execute candidates it then leaves out, so the NUMBER of calls differs legitimately: compare the distinct values)
+		distinct := func(l []string) string {
+			seen := map[string]bool{}
+			var out []string
+			for _, x := range l {
+				if i := strings.Index(x, ":"); i >= 0 {
+					x = x[i+1:] // the value, whatever call carried it (a dropped candidate leaves a "tx" call without counterpart)
+				}
+				if !seen[x] {
+					seen[x] = true
+					out = append(out, x)
+				}
+			}
+			sort.Strings(out)
+			return strings.Join(out, "|")
+		}
+		if err == nil && distinct(genSeen) != distinct(valSeen) {
+			w.fail("consensus information handed to the application differs between generation and validation of block h=%d:\n generation: %v\n validation: %v", b.Header.Height, genSeen, valSeen)
+		}
 		if err != nil || !bytes.Equal(w.n.Tip().Header.ID, b.Header.ID) {
 			w.fail("the node rejects the block its generator just produced: err=%v header=%+v", err, *b.Header)
 		}
